@@ -123,7 +123,9 @@ def run(run):
     run.assumptions = ["dataset shapes enumerated, scheme symbolic on every path", "ILP solvers replaced by stand-ins", "float64 modelled as exact reals"]
     run.outside = ["n > 4, m > 2", "user-defined algorithms as starters / auxiliaries"]
     run.rule = "one item per (configuration, dataset); per path: predicate answer and outcome of compute are compared structurally; paths = scheme classes x algorithm paths"
-    items = sweep.make_items(run, CFGS, [], flags=(True,), light=light, heavy=heavy)
+    # two components that both need a sub-problem (n=6): ParCons' decoding of several sub-problem results
+    st = {"ParCons": [("two_cycles6", 2 if not run.thorough else None)], "ParCons(nocplex)": [("two_cycles6", 1)], "ParCons(1,Copeland)": [("two_cycles6", 2 if not run.thorough else None)]}
+    items = sweep.make_items(run, CFGS, [], flags=(True,), light=light, heavy=heavy, strata=st)
     items += sweep.history_items(run, [c for c in CFGS if c not in sweep.HEAVY or c in ("BioCo", "BioConsert[Borda]")], [], 4 if run.thorough else 2)
     run.pmap("applicability", item, sweep.order_items(items), chunksize=1)
     run.part("jit-conformance", lambda: jit_conformance(run))
